@@ -32,6 +32,13 @@ Proof. exact parse_mono_lemma. Qed.
 Check parse_fuel_monotone : forall n m ts, n <= m -> parse_script n ts <> Fuel -> parse_script m ts = parse_script n ts.
 Print Assumptions parse_fuel_monotone.
 
+(* everything the parser returns is core-shaped: parenthesised where the grammar requires it (levels, allow_in, targets,
+   dangling else, ...) -- all of parser_shaped except the start condition of expression statements *)
+Theorem parse_shaped_core : forall ts a, parse_tokens ts = Some a -> shaped_core a.
+Proof. exact parse_shaped_core_lemma. Qed.
+Check parse_shaped_core : forall ts a, parse_tokens ts = Some a -> shaped_core a.
+Print Assumptions parse_shaped_core.
+
 (* from the first printed form on, parse-then-print is the identity: if the parser accepted ts with AST a and a is
    parser-shaped, then the printed
    tokens p = print a parse to a again, and printing that parse gives p again *)
